@@ -535,7 +535,7 @@ package webdav
 //@ func webdav.(*Client).Stat(c, ctx, name) (fi, err)
 //@   requires R1: wclientOK(c)
 //@   allocates
-//@   assigns ghost:data, ghost:doCalls, ghost:lastReq, ghost:sentCount, ghost:sentMethod, ghost:sentPath, ghost:sentBody, ghost:hv
+//@   assigns ghost:data, ghost:doCalls, ghost:lastReq, ghost:sentCount, ghost:sentMethod, ghost:sentPath, ghost:sentBody, ghost:hv, ghost:encLast, ghost:nrCalls, ghost:nrMethod, ghost:nrURL, ghost:nrReq
 //@   ensures E1: doCalls == old(doCalls) ==> fi == nil && err != nil
 //@   ensures E2: doCalls == old(doCalls) + 1 && (lastErr(c.ic) != nil || lastStatus(c.ic) != 207) ==> fi == nil && err != nil && (lastErr(c.ic) == nil && lastStatus(c.ic) / 100 != 2 ==> httpCode(err) == lastStatus(c.ic))
 //@   ensures E3: doCalls == old(doCalls) || doCalls == old(doCalls) + 1
@@ -544,7 +544,7 @@ package webdav
 //@ func webdav.(*Client).ReadDir(c, ctx, name, recursive) (l, err)
 //@   requires R1: wclientOK(c)
 //@   allocates
-//@   assigns ghost:data, ghost:doCalls, ghost:lastReq, ghost:sentCount, ghost:sentMethod, ghost:sentPath, ghost:sentBody, ghost:hv
+//@   assigns ghost:data, ghost:doCalls, ghost:lastReq, ghost:sentCount, ghost:sentMethod, ghost:sentPath, ghost:sentBody, ghost:hv, ghost:encLast, ghost:nrCalls, ghost:nrMethod, ghost:nrURL, ghost:nrReq
 //@   ensures E1: doCalls == old(doCalls) ==> err != nil
 //@   ensures E2: doCalls == old(doCalls) + 1 && (lastErr(c.ic) != nil || lastStatus(c.ic) != 207) ==> err != nil && (lastErr(c.ic) == nil && lastStatus(c.ic) / 100 != 2 ==> httpCode(err) == lastStatus(c.ic))
 //@   ensures E3: doCalls == old(doCalls) || doCalls == old(doCalls) + 1
@@ -559,7 +559,7 @@ package webdav
 //@ func webdav.(*Client).FindCurrentUserPrincipal(c, ctx) (p, err)
 //@   requires R1: wclientOK(c)
 //@   allocates
-//@   assigns ghost:data, ghost:doCalls, ghost:lastReq, ghost:sentCount, ghost:sentMethod, ghost:sentPath, ghost:sentBody, ghost:hv
+//@   assigns ghost:data, ghost:doCalls, ghost:lastReq, ghost:sentCount, ghost:sentMethod, ghost:sentPath, ghost:sentBody, ghost:hv, ghost:encLast, ghost:nrCalls, ghost:nrMethod, ghost:nrURL, ghost:nrReq
 //@   ensures E1: doCalls == old(doCalls) ==> err != nil
 //@   ensures E2: doCalls == old(doCalls) + 1 && (lastErr(c.ic) != nil || lastStatus(c.ic) != 207) ==> err != nil && (lastErr(c.ic) == nil && lastStatus(c.ic) / 100 != 2 ==> httpCode(err) == lastStatus(c.ic))
 //@   ensures E3: err != nil ==> p == ""
